@@ -1,8 +1,17 @@
 package main
 
 // Event loops: select / channels under a demonic environment (DESIGN.md 3.8).
+//
+// A select returns any case whose channel is non-nil; a received value is
+// arbitrary (well-typed).  Result channels (ghost ChanKind[c] == 1, created by
+// trusted constructors such as dm.do / runner.Do) deliver exactly one value:
+// a receive on c can fire only while ChanPending[c], and firing it clears
+// ChanPending[c] and decrements the ghost counter InFlight.  Ghost updates can
+// be attached to individual select cases (`select k case i ghost G := e`).
+// Sends, closes and goroutine bodies are outside the model (dropped, listed).
 
 import (
+	"fmt"
 	"go/types"
 
 	"golang.org/x/tools/go/ssa"
@@ -16,11 +25,112 @@ func (g *FnGen) mergeChans(out *State, live []*State, mergeTerm func(string, str
 }
 func (g *FnGen) havocChans(s *State, li *loopInfo) {}
 
-func (g *FnGen) selectImpl(s *State, x *ssa.Select)     { panic(genErr("select not supported yet")) }
-func (g *FnGen) sendImpl(s *State, x *ssa.Send)         { panic(genErr("send not supported yet")) }
-func (g *FnGen) makeChanImpl(s *State, x *ssa.MakeChan) { panic(genErr("chan not supported yet")) }
-func (g *FnGen) recvImpl(s *State, x *ssa.UnOp)         { panic(genErr("recv not supported yet")) }
-func (g *FnGen) closeImpl(s *State, com *ssa.CallCommon) { panic(genErr("close not supported yet")) }
+func (g *FnGen) hasChanProtocol() bool {
+	_, a := g.c.ghosts["ChanKind"]
+	_, b := g.c.ghosts["ChanPending"]
+	_, c := g.c.ghosts["InFlight"]
+	return a && b && c
+}
+
+// recvEffect applies the result-channel protocol for a receive on ch that fires under condition cond.
+func (g *FnGen) recvEffect(s *State, ch, cond string) {
+	if !g.hasChanProtocol() {
+		return
+	}
+	kind := sel(g.ghost(s, "ChanKind"), ch)
+	isRes := eq(kind, "1")
+	g.assume(s, implies(and(cond, isRes), sel(g.ghost(s, "ChanPending"), ch)))
+	fire := and(cond, isRes)
+	np := g.fresh("G_ChanPending", g.c.specSort(g.c.ghosts["ChanPending"].Sort, nil).sort)
+	g.defs = append(g.defs, eq(np, ite(fire, store(g.ghost(s, "ChanPending"), ch, "false"), g.ghost(s, "ChanPending"))))
+	s.ghosts["ChanPending"] = np
+	nf := g.fresh("G_InFlight", "Int")
+	g.defs = append(g.defs, eq(nf, ite(fire, app("-", g.ghost(s, "InFlight"), "1"), g.ghost(s, "InFlight"))))
+	s.ghosts["InFlight"] = nf
+}
+
+func (g *FnGen) selectImpl(s *State, x *ssa.Select) {
+	g.selectN++
+	n := len(x.States)
+	idx := g.fresh("selidx", "Int")
+	lo := "0"
+	if !x.Blocking {
+		lo = "(- 1)"
+	}
+	g.assume(s, and(app("<=", lo, idx), app("<", idx, intLit(int64(n)))))
+	tuple := []string{idx, g.fresh("recvok", "Bool")}
+	for i, st := range x.States {
+		ch := g.term(s, st.Chan)
+		here := eq(idx, intLit(int64(i)))
+		g.assume(s, implies(here, not(eq(ch, nilRef)))) // nil channels are never ready
+		if st.Dir == types.RecvOnly {
+			et := st.Chan.Type().Underlying().(*types.Chan).Elem()
+			v := g.fresh(fmt.Sprintf("recv%d", i), g.c.reg.sortOf(et))
+			g.assume(s, g.typeInv(s, v, et, 0))
+			tuple = append(tuple, v)
+			g.recvEffect(s, ch, here)
+		} else {
+			g.term(s, st.Send)
+			g.usedDropped["send in select (no effect on modelled state)"] = true
+		}
+	}
+	if g.fc != nil {
+		for _, sg := range g.fc.SelectGhost {
+			if sg.Select != g.selectN {
+				continue
+			}
+			if sg.Case < 0 || sg.Case >= n {
+				panic(genErr("%s: select %d has %d cases", sg.Where, sg.Select, n))
+			}
+			gd, ok := g.c.ghosts[sg.Ghost]
+			if !ok {
+				panic(genErr("%s: unknown ghost %s", sg.Where, sg.Ghost))
+			}
+			env := g.newEnv(s, g.entry)
+			v := env.eval(sg.E)
+			ng := g.fresh("G_"+sg.Ghost, g.c.specSort(gd.Sort, nil).sort)
+			g.defs = append(g.defs, eq(ng, ite(eq(idx, intLit(int64(sg.Case))), v.term, g.ghost(s, sg.Ghost))))
+			s.ghosts[sg.Ghost] = ng
+		}
+	}
+	g.vals[x] = &Val{tuple: tuple}
+}
+
+func (g *FnGen) recvImpl(s *State, x *ssa.UnOp) {
+	ch := g.term(s, x.X)
+	g.assume(s, not(eq(ch, nilRef))) // a receive from a nil channel blocks forever: no continuation
+	et := x.X.Type().Underlying().(*types.Chan).Elem()
+	v := g.fresh("recv", g.c.reg.sortOf(et))
+	g.assume(s, g.typeInv(s, v, et, 0))
+	g.recvEffect(s, ch, "true")
+	if x.CommaOk {
+		g.vals[x] = &Val{tuple: []string{v, g.fresh("recvok", "Bool")}}
+	} else {
+		g.vals[x] = &Val{term: v}
+	}
+}
+
+func (g *FnGen) sendImpl(s *State, x *ssa.Send) {
+	ch := g.term(s, x.Chan)
+	g.term(s, x.X)
+	g.assume(s, not(eq(ch, nilRef)))
+	g.usedDropped["channel send (no effect on modelled state)"] = true
+}
+
+func (g *FnGen) makeChanImpl(s *State, x *ssa.MakeChan) {
+	r := g.allocRef(s, "chan")
+	if g.hasChanProtocol() {
+		nk := g.fresh("G_ChanKind", g.c.specSort(g.c.ghosts["ChanKind"].Sort, nil).sort)
+		g.defs = append(g.defs, eq(nk, store(g.ghost(s, "ChanKind"), r, "0")))
+		s.ghosts["ChanKind"] = nk
+	}
+	g.vals[x] = &Val{term: r}
+}
+
+func (g *FnGen) closeImpl(s *State, com *ssa.CallCommon) {
+	g.term(s, com.Args[0])
+	g.usedDropped["close(chan) (no effect on modelled state)"] = true
+}
 
 func (g *FnGen) intrinsicSorts(com *ssa.CallCommon, heapSorts map[string]bool) bool {
 	if !com.IsInvoke() {
